@@ -179,7 +179,7 @@ ServerVariants(doc, p) ==
                  ELSE {})
 
 MainMethods == {"GET", "POST"}
-OddMethods == {"DELETE", "PROPFIND", "get"}
+OddMethods == {"DELETE", "PROPFIND", "get", "HEAD", "OPTIONS"}      \* HEAD is not GET: a template that declares only GET has no HEAD operation
 
 (* a relative URL must not start with "//" (it would be read as an authority) *)
 WellFormed(r) == Len(r.u.path) > 0 /\ (r.u.abs \/ r.u.path[1] # "" \/ Len(r.u.path) = 1)
